@@ -83,15 +83,19 @@ Definition cache := option Z.
 
 Record cfg : Type := mkCfg {
   c_fixed : bool;    (* Find resets the read limit of the schema message (the fix of F10) *)
+  c_acc : bool;      (* a pointer of the wrong kind is treated like a null pointer (the field's default is shown),
+                        as the generated accessors do (the fix of the accessor disagreement) *)
   c_cut : bool;      (* inside the default value of a type, a null field of that type is written as ()
                         (the fix of the unbounded recursion on recursive types) *)
   c_limit0 : Z;      (* limit of a freshly unmarshalled message: 64 MiB *)
   c_reset : Z }.     (* the limit Find resets to *)
 
-Definition cfg_prefix : cfg := mkCfg false false 67108864 0.
-Definition cfg_fixed : cfg := mkCfg true true 67108864 18446744073709551615.
+Definition cfg_prefix : cfg := mkCfg false false false 67108864 0.
+Definition cfg_fixed : cfg := mkCfg true true true 67108864 18446744073709551615.
 (* F10 fixed, recursion on recursive types not yet cut *)
-Definition cfg_nocut : cfg := mkCfg true false 67108864 18446744073709551615.
+Definition cfg_nocut : cfg := mkCfg true true false 67108864 18446744073709551615.
+(* the default is shown only for a NULL pointer (marshal.go before the accessor fix) *)
+Definition cfg_noacc : cfg := mkCfg true false true 67108864 18446744073709551615.
 
 Definition M (A : Type) : Type := cache -> res (A * cache).
 Definition ret {A} (a : A) : M A := fun st => Ok (a, st).
@@ -155,13 +159,18 @@ Definition as_struct (p : rval) : list Z * list rval :=
   match p with RStruct d ps => (d, ps) | _ => ([], []) end.
 
 (* Ptr.Data(), Ptr.TextBytes() *)
-Definition data_bytes (p : rval) : list Z :=
-  match p with RPrim w bs => if w =? 8 then bs else [] | _ => [] end.
-Definition text_bytes (p : rval) : list Z :=
+(* Ptr.DataDefault / Ptr.text(): Some = the pointer is a byte list (with NUL terminator for text) *)
+Definition data_of (p : rval) : option (list Z) :=
+  match p with RPrim w bs => if w =? 8 then Some bs else None | _ => None end.
+Definition text_of (p : rval) : option (list Z) :=
   match p with
-  | RPrim w bs => if (w =? 8) && (last bs 1 =? 0) then removelast bs else []
-  | _ => []
+  | RPrim w bs => if (w =? 8) && (last bs 1 =? 0) then Some (removelast bs) else None
+  | _ => None
   end.
+Definition data_bytes (p : rval) : list Z := match data_of p with Some b => b | None => [] end.
+Definition text_bytes (p : rval) : list Z := match text_of p with Some b => b | None => [] end.
+Definition is_struct (p : rval) : bool := match p with RStruct _ _ => true | _ => false end.
+Definition is_list (p : rval) : bool := match p with RPrim _ _ | RPtrs _ | RComp _ => true | _ => false end.
 
 (* two's complement reading of an unsigned bit pattern *)
 Definition sint (bits x : Z) : Z := if x <? 2 ^ (bits - 1) then x else x - 2 ^ bits.
@@ -213,8 +222,9 @@ Definition shown_enum (c : cfg) (sc : schema) (id v : Z) : M tval :=
 (* elements of a primitive list of the expected width *)
 Definition prim_elems (w : Z) (l : rval) : res (list Z) :=
   match l with
-  | RPrim w' xs => if (w' =? w) || (length xs =? 0)%nat then Ok xs else Err EIllTyped
-  | RPtrs ps => if (length ps =? 0)%nat then Ok [] else Err EIllTyped
+  (* a list of another element size: primitiveElem fails, At returns 0 (BitList.At: false) *)
+  | RPrim w' xs => if w' =? w then Ok xs else Ok (map (fun _ => 0) xs)
+  | RPtrs ps => Ok (map (fun _ => 0) ps)
   | RComp es =>
     (* primitiveElem on a composite list: the element's data section from its start (0 when the
        section is shorter: At returns 0 on a size mismatch); BitList.At is false on a non-bit list *)
@@ -250,6 +260,131 @@ Definition list_len (l : rval) : nat :=
 Definition lift {A} (r : res A) : M A :=
   fun st => match r with Ok a => Ok (a, st) | Err e => Err e | OutOfFuel => OutOfFuel end.
 
+(* ------------------------------------------------------------------ one slot field *)
+
+(* marshalFieldValue after Type() and DefaultValue() have been read: the value shown for a
+   slot.  [rs] / [rl] are marshalStruct / marshalList (the recursive calls of the walk). *)
+Definition slot_value (ffmt : Z -> Z -> list Z) (c : cfg) (sc : schema)
+    (rs : list Z -> Z -> list Z -> list rval -> M tval) (rl : ty -> rval -> M tval)
+    (exp : list Z) (data : list Z) (ptrs : list rval) (off : Z) (t : ty) (dflt : Z) (dptr : rval) (dpcost : Z) : M tval :=
+  match t with
+  | TVoid => ret TvVoid
+  | TBool => ret (TvBool (xorb (get_bit data off) (negb (dflt =? 0))))
+  | TInt bits => ret (TvInt (sint bits (Z.lxor (get_le data (off * (bits / 8)) (bits / 8)) dflt)))
+  | TUint bits => ret (TvInt (Z.lxor (get_le data (off * (bits / 8)) (bits / 8)) dflt))
+  | TFloat bits => ret (TvFloat (ffmt bits (Z.lxor (get_le data (off * (bits / 8)) (bits / 8)) dflt)))
+  | TStruct sid =>
+    let p := ptr_at ptrs off in
+    (* st := p.Struct(); !st.IsValid()   (before the fix: !p.IsValid()) *)
+    if (if c_acc c then negb (is_struct p) else is_null p) then
+      (* the default value of the field; [exp] = enc.defaults *)
+      if c_cut c && existsb (Z.eqb sid) exp then ret (TvStruct FNil)
+      else
+        charge dpcost ;;                                     (* dv.StructValue() *)
+        let (d, ps) := as_struct dptr in
+        rs (sid :: exp) sid d ps
+    else
+      let (d, ps) := as_struct p in
+      rs exp sid d ps
+  | TData =>
+    let p := ptr_at ptrs off in
+    if c_acc c then
+      charge dpcost ;;                                       (* def, _ := dv.Data() *)
+      ret (TvStr (match data_of p with Some b => b | None => data_bytes dptr end))   (* p.DataDefault(def) *)
+    else if is_null p then charge dpcost ;; ret (TvStr (data_bytes dptr))
+    else ret (TvStr (data_bytes p))
+  | TText =>
+    let p := ptr_at ptrs off in
+    if c_acc c then
+      charge dpcost ;;                                       (* def, _ := dv.TextBytes() *)
+      ret (TvStr (match text_of p with Some b => b | None => text_bytes dptr end))   (* p.TextBytesDefault(def) *)
+    else if is_null p then charge dpcost ;; ret (TvStr (text_bytes dptr))
+    else ret (TvStr (text_bytes p))
+  | TList ecost e =>
+    charge ecost ;;                                          (* typ.List().ElementType() *)
+    let p := ptr_at ptrs off in
+    (* l := p.List(); !l.IsValid()   (before the fix: !p.IsValid()) *)
+    p' <- (if (if c_acc c then negb (is_list p) else is_null p) then charge dpcost ;; ret dptr else ret p) ;;   (* dv.List() *)
+    rl e p'
+  | TEnum eid => shown_enum c sc eid (Z.lxor (get_le data (off * 2) 2) dflt)
+  | TInterface =>
+    ret (if is_null (ptr_at ptrs off) then TvIdent ident_null else TvMarker marker_cap)
+  | TAnyPointer => ret (TvMarker marker_any)
+  end.
+
+(* ------------------------------------------------------------------ the generated accessors
+   What capnpc-go emits for a slot field (templates structBoolField, structUintField,
+   structTextField, structDataField, structStructField, structListField, ...), written from
+   the templates and pointer.go, independently of the walk above:
+     scalars / enum: read at the offset, XOR the default;
+     Text: p.TextBytesDefault(def)   Data: p.DataDefault(def)
+     struct: p.StructDefault(def)    list: p.ListDefault(def)      (no default: def empty / null)
+   where every *Default falls back to def for a null pointer AND for a pointer of the wrong
+   kind.  [fromdef] records that the default was returned (the encoder's bookkeeping of the
+   defaults it is writing depends on it). *)
+Inductive aval : Type :=
+| AvVoid | AvBool (b : bool) | AvInt (z : Z) | AvFloat (bits pat : Z)
+| AvText (bs : list Z) | AvData (bs : list Z)
+| AvStruct (sid : Z) (fromdef : bool) (d : list Z) (ps : list rval)
+| AvList (ecost : Z) (e : ty) (fromdef : bool) (l : rval)
+| AvEnum (eid v : Z)
+| AvIface (has : bool)
+| AvAny.
+
+Definition accessor (data : list Z) (ptrs : list rval) (off : Z) (t : ty) (dflt : Z) (dptr : rval) : aval :=
+  let p := ptr_at ptrs off in
+  match t with
+  | TVoid => AvVoid
+  | TBool => AvBool (xorb (get_bit data off) (negb (dflt =? 0)))
+  | TInt bits => AvInt (sint bits (Z.lxor (get_le data (off * (bits / 8)) (bits / 8)) dflt))
+  | TUint bits => AvInt (Z.lxor (get_le data (off * (bits / 8)) (bits / 8)) dflt)
+  | TFloat bits => AvFloat bits (Z.lxor (get_le data (off * (bits / 8)) (bits / 8)) dflt)
+  | TText => AvText (match text_of p with
+                     | Some b => b
+                     | None => match text_of dptr with Some b => b | None => [] end
+                     end)
+  | TData => AvData (match data_of p with
+                     | Some b => b
+                     | None => match data_of dptr with Some b => b | None => [] end
+                     end)
+  | TStruct sid =>
+    match p with
+    | RStruct d ps => AvStruct sid false d ps
+    | _ => match dptr with RStruct d ps => AvStruct sid true d ps | _ => AvStruct sid true [] [] end
+    end
+  | TList ecost e =>
+    match p with
+    | RPrim _ _ | RPtrs _ | RComp _ => AvList ecost e false p
+    | _ => AvList ecost e true dptr
+    end
+  | TEnum eid => AvEnum eid (Z.lxor (get_le data (off * 2) 2) dflt)
+  | TInterface => AvIface (negb (is_null p))
+  | TAnyPointer => AvAny
+  end.
+
+(* how the encoder writes a value obtained from an accessor *)
+Definition show_aval (ffmt : Z -> Z -> list Z) (c : cfg) (sc : schema)
+    (rs : list Z -> Z -> list Z -> list rval -> M tval) (rl : ty -> rval -> M tval)
+    (exp : list Z) (dpcost : Z) (a : aval) : M tval :=
+  match a with
+  | AvVoid => ret TvVoid
+  | AvBool b => ret (TvBool b)
+  | AvInt z => ret (TvInt z)
+  | AvFloat bits pat => ret (TvFloat (ffmt bits pat))
+  | AvText b => charge dpcost ;; ret (TvStr b)
+  | AvData b => charge dpcost ;; ret (TvStr b)
+  | AvStruct sid fromdef d ps =>
+    if fromdef then
+      if c_cut c && existsb (Z.eqb sid) exp then ret (TvStruct FNil)
+      else charge dpcost ;; rs (sid :: exp) sid d ps
+    else rs exp sid d ps
+  | AvList ecost e fromdef l =>
+    charge ecost ;; (if fromdef then charge dpcost else ret tt) ;; rl e l
+  | AvEnum eid v => shown_enum c sc eid v
+  | AvIface has => ret (if has then TvMarker marker_cap else TvIdent ident_null)
+  | AvAny => ret (TvMarker marker_any)
+  end.
+
 (* marshalStruct / marshalFieldValue / marshalList *)
 Fixpoint shown_struct (ffmt : Z -> Z -> list Z) (c : cfg) (sc : schema) (fuel : nat) (exp : list Z) (id : Z) (data : list Z) (ptrs : list rval) {struct fuel} : M tval :=
   match fuel with
@@ -273,42 +408,7 @@ Fixpoint shown_struct (ffmt : Z -> Z -> list Z) (c : cfg) (sc : schema) (fuel : 
                   | FSlot off t dflt dptr tcost dvcost dpcost =>
                     charge tcost ;;                       (* f.Slot().Type() *)
                     charge dvcost ;;                      (* f.Slot().DefaultValue() *)
-                    v <- match t with
-                         | TVoid => ret TvVoid
-                         | TBool => ret (TvBool (xorb (get_bit data off) (negb (dflt =? 0))))
-                         | TInt bits => ret (TvInt (sint bits (Z.lxor (get_le data (off * (bits / 8)) (bits / 8)) dflt)))
-                         | TUint bits => ret (TvInt (Z.lxor (get_le data (off * (bits / 8)) (bits / 8)) dflt))
-                         | TFloat bits => ret (TvFloat (ffmt bits (Z.lxor (get_le data (off * (bits / 8)) (bits / 8)) dflt)))
-                         | TStruct sid =>
-                           let p := ptr_at ptrs off in
-                           if is_null p then
-                             (* the default value of the field; [exp] = enc.defaults *)
-                             if c_cut c && existsb (Z.eqb sid) exp then ret (TvStruct FNil)
-                             else
-                               charge dpcost ;;                                     (* dv.StructValue() *)
-                               let (d, ps) := as_struct dptr in
-                               shown_struct ffmt c sc f (sid :: exp) sid d ps
-                           else
-                             let (d, ps) := as_struct p in
-                             shown_struct ffmt c sc f exp sid d ps
-                         | TData =>
-                           let p := ptr_at ptrs off in
-                           if is_null p then charge dpcost ;; ret (TvStr (data_bytes dptr))   (* dv.Data() *)
-                           else ret (TvStr (data_bytes p))
-                         | TText =>
-                           let p := ptr_at ptrs off in
-                           if is_null p then charge dpcost ;; ret (TvStr (text_bytes dptr))   (* dv.TextBytes() *)
-                           else ret (TvStr (text_bytes p))
-                         | TList ecost e =>
-                           charge ecost ;;                (* typ.List().ElementType() *)
-                           let p := ptr_at ptrs off in
-                           p' <- (if is_null p then charge dpcost ;; ret dptr else ret p) ;;   (* dv.List() *)
-                           shown_list ffmt c sc f exp e p'
-                         | TEnum eid => shown_enum c sc eid (Z.lxor (get_le data (off * 2) 2) dflt)
-                         | TInterface =>
-                           ret (if is_null (ptr_at ptrs off) then TvIdent ident_null else TvMarker marker_cap)
-                         | TAnyPointer => ret (TvMarker marker_any)
-                         end ;;
+                    v <- slot_value ffmt c sc (shown_struct ffmt c sc f) (shown_list ffmt c sc f exp) exp data ptrs off t dflt dptr dpcost ;;
                     ret (Some v)
                   | FOther => ret None
                   end
